@@ -7,7 +7,7 @@ import common as C, core
 core.register("C13", "Props.C13", "theories/Props/C13.vo",
               ["C13_mutex", "C13_touch_only_owner", "C13_refused_is_inert", "C13_reacquire"])
 
-TOUCH = ("create", "write", "sync", "fsync", "trunc", "unlink", "openchunk")
+TOUCH = ("create", "write", "sync", "fsync", "trunc", "unlink", "openchunk", "listdir")
 
 
 def analyse(lines):
@@ -25,6 +25,7 @@ def analyse(lines):
     stats = dict(attempts=0, granted=0, refused=0, touches=0, worker_touches=0, overlaps=0)
     in_attempt = {}
     pending_drop = []
+    trying, fails = {}, []
     for ts, who, role, rest in evs:
         pid = who.split(".")[0]
         is_worker = who.endswith("raft_log_wal_flush_worker")
@@ -42,40 +43,22 @@ def analyse(lines):
                 stats["granted"] += 1
             elif rest[0] == "panic":
                 problems.append("open panicked")
-            elif rest[0] in ("append", "flush") and not rest[1] in ("ok", "unit"):
+            elif rest[0] in ("append", "flush", "purge") and not rest[1] in ("ok", "unit"):
                 problems.append("the owner's %s failed: %s" % (rest[0], " ".join(rest[1:])))
             continue
         k = rest[0]
         if k == "openlock":
             toks.append("o%d" % c)
         elif k == "flock" and rest[1] == "trying":
-            toks.append(("try", c))          # placeholder: where a failing attempt is ordered
+            trying[c] = len(toks)             # number of ordered tokens before the attempt started
         elif k == "flock" and rest[1] == "lock":
             ok = rest[2] == "ok"
-            # a failed attempt is ordered at its start (it may have been decided before an
-            # unlock whose log line precedes the attempt's result line); a successful one at its end
-            ph = [i for i, t in enumerate(toks) if t == ("try", c)]
-            if ph:
-                if not ok:
-                    # the failure was decided somewhere between the attempt's two log lines:
-                    # order it at the first point of that interval at which somebody holds the lock
-                    start = ph[-1]
-                    del toks[start]
-                    pos = start
-                    for i in range(start, len(toks) + 1):
-                        h = None
-                        for t in toks[:i]:
-                            if isinstance(t, str):
-                                if t[0] == "t" and t.endswith("+"):
-                                    h = t
-                                elif t[0] == "d":
-                                    h = None
-                        if h is not None:
-                            pos = i
-                            break
-                    toks.insert(pos, "t%d-" % c)
-                    continue
-                del toks[ph[-1]]
+            if not ok:
+                # a failed attempt was decided somewhere between its two log lines (and a
+                # competitor's success may be logged only after it): resolved in a second pass
+                fails.append((c, trying.pop(c, len(toks)), len(toks)))
+                continue
+            trying.pop(c, None)
             if ok and pending_drop:
                 # the real unlock lies between its "unlock" (before the call) and "unlocked"
                 # (after it) log lines: a successful attempt in between comes after it
@@ -101,17 +84,49 @@ def analyse(lines):
             if is_worker:
                 stats["worker_touches"] += 1
                 if holder is None or holder.split(".")[0] != pid:
-                    problems.append("a flush worker of process %s touched chunk file %s while %s owns the directory" % (pid, rest[1], holder))
+                    problems.append("a flush worker of process %s touched chunk file %s while %s owns the directory" % (pid, rest[1] if len(rest) > 1 else "", holder))
                     toks.append("x%d" % (len(ids) + 50))
                 else:
                     toks.append("x%d" % ids[holder])
             else:
                 if holder != who:
-                    problems.append("%s touched chunk file %s (%s) without owning the directory (owner: %s)" % (who, rest[1], k, holder))
+                    problems.append("%s touched the chunk files (%s %s) without owning the directory (owner: %s)" % (who, k, rest[1] if len(rest) > 1 else "", holder))
                 toks.append("x%d" % c)
     for pc in pending_drop:
         toks.append("d%d" % pc)
-    toks = [t for t in toks if isinstance(t, str)]
+    # second pass: order every failed attempt at the first point of its interval at which
+    # somebody holds the lock; the interval is extended to just after the next logged success
+    def holder_after(n):
+        h = None
+        for t in toks[:n]:
+            if t[0] == "t" and t.endswith("+"):
+                h = t
+            elif t[0] == "d":
+                h = None
+        return h
+    placed = []
+    for (c, s0, e0) in fails:
+        e1 = e0
+        for j in range(e0, len(toks)):
+            if toks[j][0] == "t" and toks[j].endswith("+"):
+                e1 = j + 1
+                break
+        pos = s0
+        for i in range(s0, e1 + 1):
+            if holder_after(i) is not None:
+                pos = i
+                break
+        placed.append((pos, "t%d-" % c))
+    out = []
+    placed.sort(key=lambda x: x[0])
+    pi = 0
+    for i in range(len(toks) + 1):
+        while pi < len(placed) and placed[pi][0] == i:
+            out.append(placed[pi][1])
+            pi += 1
+        if i < len(toks):
+            out.append(toks[i])
+    toks = out
     return toks, problems, stats
 
 
